@@ -207,6 +207,13 @@ def o_no_escape(h):
             ep._reported = len(ep.escaped)
             name, msg, site = ep.escaped[-1]
             out.append(('loop-died:%s@%s' % (name, site), 'the event loop of %s ended with %s: %s' % (ep.name, name, msg)))
+        # the loop's catch-all contained an exception: with authentic traffic and local triggers only, no entry point may raise
+        if ep.contained and getattr(ep, '_contained_reported', 0) != len(ep.contained) and h.ops[-1][0] != 'inject':
+            ep._contained_reported = len(ep.contained)
+            m = ep.contained[-1]
+            kind = m.split('event: ')[1].split('(')[0] if 'event: ' in m else '?'
+            out.append(('exception-in-entry-point:%s' % kind, 'an entry point of %s raised (contained by the loop) after %s: %s'
+                        % (ep.name, ' '.join(h.ops[-1]), m)))
     return out
 
 
